@@ -16,10 +16,10 @@ for k in q.kf_excl:
 if q.kf_only: defs['KF_ONLY_' + q.kf_only.replace('-', '_')] = 1
 key, ent = compile_ir(w, q, defs)
 if ent.get('err'): print(ent['err']); sys.exit(1)
-c, loops, err = translate(w, key, ent, q.stubs)
+c, loops, err = translate(w, key, ent, q.stubs, q.self_stubs)
 if err: print(err); sys.exit(1)
 import hashlib
-skey = hashlib.sha1(repr(sorted(q.stubs.items())).encode()).hexdigest()[:8]
+skey = hashlib.sha1(repr((sorted(q.stubs.items()), sorted(q.self_stubs.items()))).encode()).hexdigest()[:8]
 items, d = unwindset(w, c, q.entry, loops, q, ent.get('rec_' + skey), ())
 for x in d: print('%-60s %-28s %s:%s unwind=%s' % (x['loop'][-60:], x['src'], x['file'], x['line'], x['unwind']))
 rc, out, dt, tmo, cmd = run_cbmc(w, q, c, q.entry, items, q.backend if isinstance(q.backend, str) else q.backend[0], to, trace_prop='*' if '--trace' in sys.argv else None)
